@@ -349,7 +349,7 @@ static std::string exec_child(ExecFn fn, const ExecPlan& pl, uint64_t undefFlags
   sa.sa_handler = exec_handler;
   sa.sa_flags = SA_NODEFER;
   for (int sg : {SIGSEGV, SIGBUS, SIGFPE, SIGILL, SIGTRAP, SIGALRM}) sigaction(sg, &sa, nullptr);
-  alarm(5);
+  alarm(60);   // wall clock (an instruction may block); generous because the machine may be heavily loaded
   uint64_t cur_flags = __builtin_ia32_readeflags_u64() & ~(kArithFlags | 0x400);
   int faults = 0, done = 0;
   std::string issues;
